@@ -180,6 +180,10 @@ func (m *Machine) global(g *ssa.Global) *Cell {
 		v = m.zero(et)
 	}
 	c := &Cell{V: v, Name: g.Name()}
+	if g.Object() != nil && m.underTest(g.Object()) {
+		c.Name = "global." + g.Name()
+		c.Track = true
+	}
 	m.globals[g] = c
 	return c
 }
@@ -219,6 +223,20 @@ func (m *Machine) store(p Ptr, v Val) {
 	}
 	if m.trace != nil {
 		m.trace.access(m, p.C, true)
+	}
+	// objects reachable through a named field inherit its name (stable identity across paths)
+	if p.C.Name != "" && strings.Contains(p.C.Name, ".") {
+		switch x := v.(type) {
+		case Ptr:
+			if x.C != nil && !strings.Contains(x.C.Name, ".") {
+				x.C.Name = p.C.Name
+			}
+		case Map:
+			if x.M != nil && x.M.Name == "" {
+				x.M.Name = p.C.Name
+				x.M.Track = p.C.Track
+			}
+		}
 	}
 	m.assignInto(p.C, v)
 }
